@@ -16,10 +16,12 @@ import Driver.RelayD
 import Driver.LifeD
 import Driver.UtlsD
 import Driver.TimerD
+import Driver.DnsQD
 
 def main (args : List String) : IO UInt32 := do
   match args with
   | ["attrmap"] => Driver.AttrMapD.main; return 0
+  | ["dnsq"] => Driver.DnsQD.main; return 0
   | ["timer"] => Driver.TimerD.main; return 0
   | ["life"] => Driver.LifeD.main; return 0
   | ["utls"] => Driver.UtlsD.main; return 0
